@@ -39,8 +39,14 @@ def run_property(pid: str, tier: str, repo: str):
         grp = RULES[rule_id][0]
         if grp not in groups:
             groups.append(grp)
+    # a rule group that cannot decide (AnalysisError) does not silence a concrete violation found by another group:
+    # the undecided groups are remembered and make the run UNDECIDED only when no new violation is reported
+    out.undecided = []
     for grp in groups:
-        RULE_GROUPS[grp](ctx, out)
+        try:
+            RULE_GROUPS[grp](ctx, out)
+        except AnalysisError as ex:
+            out.undecided.append((grp, str(ex)))
     wanted = {r for r, _ in spec.rules}
     scopes = dict(spec.rules)
     instances = []
@@ -62,6 +68,11 @@ def run_property(pid: str, tier: str, repo: str):
     instances = list(merged.values())
     # floors: a rule that matches fewer instances than confirmed by hand passes vacuously -> undecided
     any_violation = any(i.verdict == 'VIOLATION' for i in instances)
+    if out.undecided:
+        from sa.report import known_index as _ki, load_known as _lk
+        known_ = _ki(_lk())
+        if not any(i.verdict == 'VIOLATION' and (pid, i.rule, i.construct) not in known_ for i in instances):
+            raise AnalysisError('; '.join(f'{g}: {m}' for g, m in out.undecided))
     for rule_id, floor in spec.floors.items():
         if any_violation:
             break          # the run already fails with a concrete construct; floors guard vacuous passes only
@@ -224,6 +235,8 @@ def main(argv=None) -> int:
             new_viol.append(inst)
     for inst in known_hits:
         print(f'KNOWN-FINDING: property={pid} {inst.rule} {inst.construct} :: {inst.msg}')
+    for grp, msg in getattr(out, 'undecided', []) or []:
+        print(f'UNDECIDED-PART property={pid} {grp}: {msg}')
     for n, inst in enumerate(new_viol):
         os.makedirs(viol_dir, exist_ok=True)
         path = os.path.join(viol_dir, f'{n}.json')
